@@ -477,3 +477,6 @@ trimmed in raw strings.
         assert_eq!(parsed.as_deref(), Ok(expected), "Parsing {input:?}");
     }
 }
+
+#[cfg(kani)]
+include!(concat!(env!("TOML_VERIF_KANI"), "/toml_edit/parser_strings.rs"));
